@@ -194,7 +194,7 @@ class SimProbe:
             return before
 
         self._wraps = [
-            Wrap(net, "plugin", before=rec("P", lambda a, k: getattr(a[0], "session_id", None))),
+            Wrap(net, "plugin", before=rec("P", lambda a, k: getattr(a[0] if a else k.get("ev"), "session_id", None))),
             Wrap(net, "unplug", before=rec("U", lambda a, k: (a[1] if len(a) > 1 else k.get("session_id")))),
             Wrap(net, "update_pilots", before=rec("A")),
             Wrap(net, "post_charging_update", after=self._after_x),
